@@ -13,7 +13,7 @@ REPO = os.environ.get("VERIF_REPO", "/repo")
 KANI = {
     "C12": dict(crate="lib/melvm", file="kani/melvm_codec.rs", mod="verif_codec",
                 harnesses=["dec_enc_00_2f", "dec_enc_30_6f", "dec_enc_70_af", "dec_enc_b0_ef", "dec_enc_f0", "dec_enc_f1", "dec_enc_f2", "dec_enc_f3_ff",
-                           "enc_dec_noarg", "enc_dec_noarg2", "enc_dec_args", "enc_dec_args2", "enc_dec_push_edges", "enc_dec_pushi", "enc_dec_pushic", "enc_dec_pushb"],
+                           "enc_dec_noarg", "enc_dec_noarg2", "enc_dec_args", "enc_dec_args2", "enc_dec_push_edges", "enc_dec_pushb_edges", "enc_dec_pushi", "enc_dec_pushic", "enc_dec_pushb"],
                 text={"dec": "K1: for every byte string of <= 35 bytes with this first-byte range: decode either fails or yields an instruction whose encoding is exactly the consumed prefix; never panics",
                       "enc": "K2: encode(op) followed by two arbitrary bytes decodes back to op, consuming exactly the encoding"},
                 sources=["lib/melvm/src/opcode.rs", "lib/melvm/Cargo.toml", "Cargo.lock"], slow=["enc_dec_pushi", "enc_dec_pushic", "enc_dec_pushb"],
@@ -27,7 +27,7 @@ def run(prop, tier):
     cfg = KANI[prop]
     out = {"unit": "kani:" + cfg["mod"], "status": "ok", "reasons": [], "obligations": [], "findings": [], "canaries": {}, "functions": [],
            "assumed_functions": [], "scan": {}, "smt_ms": 0, "cmds": [], "files": [], "bounded": [], "not_covered": []}
-    # The Kani runs are slow (16 harnesses, up to 30 CPU-minutes each).  A committed record (kani/discharged.json) names the exact source text
+    # The Kani runs are slow (17 harnesses, up to 30 CPU-minutes each).  A committed record (kani/discharged.json) names the exact source text
     # (sha256 of the function-bearing files + harness file) for which every harness was discharged by a thorough run.  The quick tier re-runs the
     # harnesses only when that text differs (i.e. when somebody touched the encoder/decoder); for identical text it reports them as discharged
     # from the record -- the same CBMC problem has the same answer.
@@ -80,7 +80,7 @@ def run(prop, tier):
         skipped = []
         if tier != "thorough":
             # quick tier after an edit of the encoder/decoder: the three harnesses over symbolic 256-bit / 33-byte literals take 15-35 minutes each;
-            # they are left to the thorough tier (reported undecided here), the other thirteen (~3 min each) run now
+            # they are left to the thorough tier (reported undecided here), the other fourteen (up to ~5 min each) run now
             skipped = [h for h in todo if h in cfg.get("slow", [])]
             todo = [h for h in todo if h not in skipped]
         first = one(todo[0])
